@@ -80,7 +80,7 @@ func b2i(b bool) int {
 
 
 // stateAPI is what the harness uses of a StateRoutineContainer; two instantiations are driven:
-// StateRoutineContainer[int] (compare function given) and StateRoutineContainer[vint] (the VT constructors).
+// StateRoutineContainer[int] (compare function given) and StateRoutineContainer[*vst] (the VT constructors).
 type stateAPI interface {
 	SetContext(ctx context.Context, restart bool) bool
 	ClearContext() bool
@@ -96,36 +96,64 @@ type intSC struct {
 	*rt.StateRoutineContainer[int]
 }
 
-// vint is an int with the EqualVT method the VT constructors ask for (equality).
-type vint int
+// vst is the state type of the VT constructors: a pointer to a message-like struct whose EqualVT compares the
+// content. Every SetState passes a fresh pointer, so equal states are distinct under `==`: a container that
+// compared with `==` instead of EqualVT would see a change. nil is the empty state (0).
+type vst struct{ v int }
 
-func (a vint) EqualVT(b vint) bool { return a == b }
+func (a *vst) EqualVT(b *vst) bool {
+	if a == nil || b == nil {
+		return a == b
+	}
+	return a.v == b.v
+}
+
+func mkVst(v int) *vst {
+	if v == 0 {
+		return nil
+	}
+	return &vst{v: v}
+}
+
+func vstVal(p *vst) int {
+	if p == nil {
+		return 0
+	}
+	return p.v
+}
 
 type vtSC struct {
-	c *rt.StateRoutineContainer[vint]
+	c *rt.StateRoutineContainer[*vst]
 }
 
 func (s vtSC) SetContext(ctx context.Context, restart bool) bool { return s.c.SetContext(ctx, restart) }
 func (s vtSC) ClearContext() bool                                { return s.c.ClearContext() }
 func (s vtSC) RestartRoutine() bool                              { return s.c.RestartRoutine() }
 func (s vtSC) SetState(v int) (<-chan struct{}, bool, bool, bool) {
-	return s.c.SetState(vint(v))
+	return s.c.SetState(mkVst(v))
 }
 func (s vtSC) SetStateRoutine(fn rt.StateRoutine[int]) (<-chan struct{}, bool, bool) {
 	if fn == nil {
 		return s.c.SetStateRoutine(nil)
 	}
-	return s.c.SetStateRoutine(func(ctx context.Context, st vint) error { return fn(ctx, int(st)) })
+	return s.c.SetStateRoutine(func(ctx context.Context, st *vst) error { return fn(ctx, vstVal(st)) })
 }
 func (s vtSC) SwapValue(cb func(int) int) (int, <-chan struct{}, bool, bool, bool) {
-	var f func(vint) vint
+	var f func(*vst) *vst
 	if cb != nil {
-		f = func(v vint) vint { return vint(cb(int(v))) }
+		// SwapValue itself compares the callback's result with `!=`: keep the pointer when the value is kept
+		f = func(p *vst) *vst {
+			k := cb(vstVal(p))
+			if k == vstVal(p) {
+				return p
+			}
+			return mkVst(k)
+		}
 	}
 	next, ch, changed, reset, running := s.c.SwapValue(f)
-	return int(next), ch, changed, reset, running
+	return vstVal(next), ch, changed, reset, running
 }
-func (s vtSC) GetState() int { return int(s.c.GetState()) }
+func (s vtSC) GetState() int { return vstVal(s.c.GetState()) }
 func (s vtSC) WaitExited(ctx context.Context, r bool, errCh <-chan error) error {
 	return s.c.WaitExited(ctx, r, errCh)
 }
@@ -583,9 +611,9 @@ func exec(state bool) func(script []string, opt comp.Options) comp.Result {
 			case 1:
 				h.sc = intSC{rt.NewStateRoutineContainerWithLogger[int](cf, discardLogger(), opts...)}
 			case 2:
-				h.sc = vtSC{rt.NewStateRoutineContainerVT[vint](opts...)}
+				h.sc = vtSC{rt.NewStateRoutineContainerVT[*vst](opts...)}
 			case 3:
-				h.sc = vtSC{rt.NewStateRoutineContainerWithLoggerVT[vint](discardLogger(), opts...)}
+				h.sc = vtSC{rt.NewStateRoutineContainerWithLoggerVT[*vst](discardLogger(), opts...)}
 			default:
 				h.sc = intSC{rt.NewStateRoutineContainer[int](cf, opts...)}
 			}
@@ -1221,6 +1249,9 @@ func init() {
 			{"cfg state 2 0 1 s 4 1", "setsr 1", "setctx 1 0", "setstate 1", "settle", "setstate 3", "setstate 2", "settle", "exit old ctx", "settle", "exit old err 1", "quiesce", "getstate"},
 			{"cfg state 0 0 0 s 4 2", "setsr 1", "setctx 1 0", "setstate 1", "settle", "setstate 1", "setstate 3", "settle", "exit old ctx", "settle", "swap 3", "swap 2", "settle", "exit old ctx", "quiesce", "setstate 0", "exit old ctx", "quiesce"},
 			{"cfg state 0 1 1 ds 4 3", "setsr 2", "setctx 1 0", "setstate 2", "settle", "setstate 2", "exit old err 1", "advance", "setstate 4", "settle", "exit old ctx", "settle", "exit old ok", "quiesce"},
+			// VT constructors: SetState with an equal (but distinct) message is no change — neither while the instance runs nor after it returned nil
+			{"cfg state 0 0 1 s 4 3", "setsr 1", "setctx 1 0", "setstate 2", "settle", "setstate 2", "probe", "exit old ok", "settle", "setstate 2", "settle", "quiesce", "setstate 3", "settle", "setstate 3", "exit old ctx", "quiesce"},
+			{"cfg state 0 0 0 s 4 2", "setsr 1", "setctx 1 0", "setstate 2", "settle", "setstate 2", "probe", "exit old ok", "settle", "setstate 2", "settle", "quiesce", "swap 2", "swap 4", "settle", "swap 4", "exit old ctx", "quiesce"},
 			// a failed state routine waiting for its retry is replaced by a new state / a new function
 			{"cfg state 1 1 0 ds 20", "setsr 1", "setctx 1 0", "setstate 1", "settle", "exit old err 2", "settle", "setstate 2", "advance", "probe", "quiesce", "clearctx", "settle", "probe", "quiesce", "exit old ctx", "exit old ctx", "quiesce"},
 			{"cfg state 0 1 1 dds 20", "setctx 1 0", "setstate 1", "setsr 1", "settle", "exit old err 1", "settle", "setsr 2", "advance", "probe", "quiesce", "exit old err 3", "settle", "swap 3", "advance", "probe", "quiesce", "exit old ctx", "exit old ok", "quiesce"},
